@@ -7,7 +7,8 @@ from . import c04
 EXPLANATION = ("C09: in bus0_sock_send every per-peer action is guarded by the raw-mode origin test; sending never writes the "
                "receive side; raw receive records the receiving pipe before delivery; the send path never parks; a full "
                "receive buffer frees the whole message; and (all protocols) a pipe's next receive is armed under the socket "
-               "lock or after the current message was disposed of, so two messages of one peer cannot overtake each other.")
+               "lock or after the current message was disposed of, so two messages of one peer cannot overtake each other."
+               " Also: waiting operations are never prepended or served from the tail (R8); a reflector device runs a single forwarder (R9).")
 
 
 def rule_r1(ctx):
